@@ -384,6 +384,7 @@ func genPlanC10(t *rapid.T) Plan {
 		}
 		return op
 	}
+	p.Auth = rapid.IntRange(0, 2).Draw(t, "auth") == 0
 	for i := 0; i < nops; i++ {
 		c := rapid.IntRange(0, p.NClients-1).Draw(t, "c")
 		switch k := rapid.IntRange(0, 19).Draw(t, "opkind"); {
@@ -404,6 +405,9 @@ func genPlanC10(t *rapid.T) Plan {
 			p.Ops = append(p.Ops, op)
 		case k < 12:
 			p.Ops = append(p.Ops, Op{K: "unsub", C: c, Filters: []string{rapid.SampledFrom(filters).Draw(t, "uf")}})
+		case k == 13 && p.Auth:
+			// end the connection, somebody else tries the identifier with a wrong password, the real reconnect
+			p.Ops = append(p.Ops, Op{K: rapid.SampledFrom([]string{"disconnect", "close"}).Draw(t, "end"), C: c}, Op{K: "badconnect", C: c, Clean: rapid.Bool().Draw(t, "badclean")}, connect(c))
 		case k == 12 && rapid.Bool().Draw(t, "aborted"):
 			// end the connection, then a connection attempt that dies before its CONNACK, then the real reconnect
 			p.Ops = append(p.Ops, Op{K: rapid.SampledFrom([]string{"disconnect", "close"}).Draw(t, "end"), C: c}, Op{K: "aborted-connect", C: c}, connect(c))
